@@ -36,7 +36,10 @@ CLAIMED = {
              "plaintext injection) with stdlib AES/HMAC as oracle and an implementation-only monitor (rejected or identical plaintext). Device side of "
              "the tunnel: fdo.TO2 against the real owner with one tunnelled reply (65/67/69/71) replaced by a plaintext message, a flipped or cut "
              "ciphertext or nothing, under Content-Length and chunked framing and every MaxContentLength setting: the run fails and the device sends "
-             "nothing but an error message afterwards.",
+             "nothing but an error message afterwards. Tunnel keys: for every key exchange x cipher the session keys are derived a second time with "
+             "the standard library alone (ECDH / RFC 3526 modexp / RSA-OAEP + SP 800-108 KDF) from one private value and the wire values and must open the "
+             "library's messages; keys guessed from the wire alone (shared secret zero, empty, a public value) must not; a session that has not completed "
+             "the exchange (also restored the SQLite way) neither decrypts nor encrypts.",
         note=COMMON_NOTE + "Partial: the protocol-level clauses (every TO2 message from SetupDevice on is sent through the crypter, fresh IV per message, "
              "a rejected message fails the run) are exercised by the C08/C02 protocol harness, not proved here; secrecy of AES/HMAC is not claimed.",
         technique="Rocq proof (acceptance-structure theorems, no-panic over a finite regenerated suite table) + differential correspondence",
@@ -72,7 +75,11 @@ CLAIMED = {
              "unbuffered, split writes) and of exchangeServiceInfoRound (via hook) — a sweep over every remainder 0..45 before the budget is exhausted for "
              "three key lengths, random schedules, an MTU grid — plus implementation-only monitors of the same statements. The message as a whole: "
              "with the 5 bytes exchangeServiceInfo reserves, every encoded TO2.DeviceServiceInfo fits the negotiated size for any number of KVs "
-             "(theorem C15_message_fits; kind chunk.exchange runs exchangeServiceInfo itself through a hook with 0..1000 KVs per message filled to the brim).",
+             "(theorem C15_message_fits; kind chunk.exchange runs exchangeServiceInfo itself through a hook with 0..1000 KVs per message filled to the brim). "
+             "A round fails only for an entry whose key fits no message of that size (C15_fails_only_on_unsendable_key; the library was repaired to do so). "
+             "Further implementation monitors: the owner side of the budget (Producer.Available with 0..30 / 250..260 queued entries against the size the "
+             "device announced), reassembly of consecutive keys that differ only in case / whitespace / prefix, yields placed before, between and after "
+             "responds across several Receive calls of one round.",
         note=COMMON_NOTE + "Partial: goroutine interleavings are abstracted (the model reads finished messages; io.Pipe/bufPipe/channel hand-off is trusted "
              "and only exercised, with buffered/unbuffered pipes and split writes). A key whose overhead exceeds the whole MTU stalls (empty batch, pending "
              "data) — the model shows it (ex_round_stuck); the property's 'usable MTU range' excludes it.",
@@ -129,7 +136,9 @@ CLAIMED = {
              "registrations are probed right after their expiry instant. The byte-level meaning of 'passing every check' is prove_to_rv_ok "
              "(Fdo/Owner.v, theorem C07_proof_bytes: session nonce, UEID naming a GUID with a live registration, signature under THAT registration's "
              "device key), compared with the real responder on the bytes sent (kind srv.proof, one and two registered devices). Re-registration "
-             "for the same GUID (other address / TTL, five times, with restarts): TO1 releases the latest blob.",
+             "for the same GUID (other address / TTL, five times, with restarts): TO1 releases the latest blob. Registrations whose voucher has no usable "
+             "device key (chain null / empty / Ed25519 / P-224 leaf) release nothing to a token signed by any of 9-11 keys; the all-in-one "
+             "auto-registration stores now + lifetime.",
         note=COMMON_NOTE + "Expiry is exercised against the wall clock (2 s registrations probed 20 ms and 1.1 s after expiry); time itself is not modelled. "
              "The device-side model covers the redirect signature decision only.",
         technique="Rocq proof (invariant over reachable server states; COSE exactness) + differential correspondence on histories and on the device's redirect decision",
